@@ -88,6 +88,33 @@ def part_b(tier, seed, ev, rep):
     rep.note(f"B: {[(t['tid'], len(t['ev']), verdicts[t['tid']]) for t in traces]}")
 
 
+def apalache_inductive(ev, rep):
+    """WriterExclusive /\\ LockFreeWhenIdle as an INDUCTIVE invariant of the lock discipline (LockProto.tla, 4 processes),
+    discharged by Apalache: Init => IndInv (length 0) and IndInv /\\ Next => IndInv' (length 1).  Optional: a tool failure
+    or time-out is reported in the evidence, a counterexample is a machinery error (the TLC runs would disagree)."""
+    import subprocess, time
+    wd = tlc.workdir("c04apa")
+    out = []
+    try:
+        for init, length in (("Init", 0), ("IndInit", 1)):
+            t0 = time.time()
+            try:
+                p = subprocess.run(["apalache-mc", "check", "--cinit=ConstInit", f"--init={init}", "--inv=IndInv", f"--length={length}",
+                                    f"--out-dir={wd}", str(tlc.SPEC / "MC_LockProto.tla")], capture_output=True, text=True,
+                                   timeout=300, cwd=str(tlc.SPEC))
+            except (subprocess.TimeoutExpired, FileNotFoundError) as e:
+                out.append({"obligation": f"{init}/length {length}", "result": f"not run: {type(e).__name__}"})
+                continue
+            ok = "EXITCODE: OK" in p.stdout
+            out.append({"obligation": f"{init}/length {length}", "result": "discharged" if ok else "FAILED", "wall_s": round(time.time() - t0, 1)})
+            if not ok and "violat" in p.stdout.lower():
+                raise tlc.MachineryError("Apalache found a counterexample to the inductive invariant of LockProto:\n" + p.stdout[-1500:])
+    finally:
+        shutil.rmtree(wd, ignore_errors=True)
+    ev.set(apalache_inductive_invariant={"module": "LockProto", "processes": 4, "obligations": out})
+    rep.note(f"Apalache: {out}")
+
+
 def run(tier, seed, replay_path):
     ev = Evidence(PROP, tier, seed)
     rep = Reporter(PROP, ev)
@@ -100,6 +127,7 @@ def run(tier, seed, replay_path):
                     coverage=False, timeout=3000)
     expect_violation("MCSessions", mc_cfg("P2", "DevLeak", fair=False), ("LockFreeWhenIdle",), tag="c04dev")
     expect_violation("MCSessions", mc_cfg("P2", "DevStale", fair=False), ("ReaderSeesOnlyComplete",), tag="c04dev")
+    apalache_inductive(ev, rep)
     part_a(tier, seed, ev, rep)
     part_b(tier, seed, ev, rep)
     ev.set(rule="A: one case = one (model state, whole session with failure point) pair replayed on real collections with "
